@@ -20,14 +20,35 @@ m = {
  },
  "engines": [
   {"name": "xpcheck", "path": "/verif/checker", "serves_properties": sorted(CHECKS),
-   "kind_free_text": "repository-specific static analyser on go/ssa: gate-crossing reachability (typestate) over CFG edges of error-returning calls and guards, SSA provenance slices, API effect inventory, lockset/lock-order, constant-table agreement"},
+   "kind_free_text": "repository-specific static analyser on go/packages + go/ssa: source-to-source normaliser (inlines helpers unknown to the rules), path-sensitive gate-crossing reachability (typestate) over CFG edges of error-returning calls and guards with contextual success edges, SSA provenance slices through copies, API effect inventory, lockset/lock-order, constant-table agreement"},
  ],
  "checks": [],
  "not_applicable": [{"property_id": k, "reason": v} for k, v in sorted(NOT_APPLICABLE.items())],
  "notes": "All claims are at level 'other': structural necessary conditions of each property decided for every CFG path / call site / table member of the current tree; the behavioural remainder is listed per check in level_note and in evidence.coverage.not_decided. See DESIGN.md.",
 }
+COMMON = (" The tree is first put into a normal form (helpers the rules do not know are inlined source-to-source into their callers, semantics-preserving; the tree itself is untouched), "
+          "and every reachability query is path-sensitive in the small sense of DESIGN.md §14 (constant flags, nil-ness of result temporaries, re-tested values, pure error predicates), "
+          "so that the verdict does not depend on how the code is split into functions or how a condition is spelled.")
+ADDENDA = {
+ "C01": " Round 3: (R1.8) RenderComposedResourceMetadata stamps the template-name annotation on every path that names the resource, and the P&T composer renders it after the from-XR patches.",
+ "C02": " Round 3: an ApplyOption constructed in this repository that performs a write must be ordered after the controller guard in the option list.",
+ "C03": " Round 3: (R3.8) in the P&T composer the annotation the associator keys on is rendered after the from-XR patches.",
+ "C05": " Round 3: (R5.7) the explicit XR readiness is read once, after the pipeline, from the final desired composite; every failure edge of an apply that continues records the resource as unsynced.",
+ "C07": " Round 3: under the Automatic policy the claim's revision reference is explicitly overwritten with the XR's, and no filter-table entry is removed specifically on the Automatic edge.",
+ "C09": " Round 3: (R9.8) in the P&T composer a failed apply that does not abort clears the slot the observe/extract loop reads.",
+ "C10": " Round 3: every entry of the conversions table returns the Go type its target IO type stands for and asserts the Go type of its source IO type.",
+ "C11": " Round 3: every admitting return of the XRD webhook's ValidateCreate/ValidateUpdate lies beyond the success edge of the XRD's own validation.",
+ "C12": " Round 3: the hash compared with a revision's label is Composition.Hash() of the object read in this reconcile (no remembered value), and LatestRevision scans every revision deciding only on IsControlledBy and the revision number.",
+ "C13": " Round 3: (R13.10) every call into the wrapped cache of InformerTrackingCache is made with its mutex held on all paths; in Stop no source is stopped after cancel().",
+ "C15": " Round 3: (R15.6) the version checked against constraints is the build version string itself and the object scheme registers only the package API groups; (R15.7) the tee that feeds the cache propagates a failed source read to the cache writer (finding F7, fixed by a911ba8).",
+ "C17": " Round 3: (R17.8) AddOrUpdateNodes stores every supplied node; Sort skips a node only when the map visit() marks says it was visited.",
+ "C18": " Round 3: (R18.8) the validator returns a verdict only beyond the unfiltered success edge of reading the allow-list ClusterRole; binding subjects are compared with a symmetric whole-value equality.",
+ "C19": " Round 3: a refused delete returns without recording the attempt only over an equality of the recorded value with this attempt's policy.",
+}
 for pid in sorted(CHECKS):
-    c = CHECKS[pid]
+    c = dict(CHECKS[pid])
+    c["text"] = c["text"] + ADDENDA.get(pid, "") + COMMON
+    c["technique"] = c["technique"] + "; path-sensitive gate-crossing search over the inlined normal form"
     m["checks"].append({
      "property_id": pid,
      "quick_cmd": f"./run.sh {pid} quick",
